@@ -725,65 +725,120 @@ def rand_energies(rng, nk, nb):
     return out
 
 
-def rand_sel(rng, nb, kinds=("subset", "subset", "permuted", "identity", "duplicates", "out_of_range", "empty")):
-    kind = rng.choice(kinds)
+def rand_sel(rng, nb, kind):
+    """a selection of the given kind out of nb >= 2 bands"""
     if kind == "identity" or nb == 0:
         return list(range(nb))
     if kind == "subset":
-        return sorted(rng.sample(range(nb), rng.randint(1, nb)))
+        return sorted(rng.sample(range(nb), rng.randint(1, nb - 1)))
     if kind == "permuted":
-        return rng.sample(range(nb), rng.randint(1, nb))
+        while True:
+            sl = rng.sample(range(nb), rng.randint(2, nb))
+            if sl != sorted(sl):
+                return sl
     if kind == "duplicates":
-        return [rng.randrange(nb) for _ in range(rng.randint(2, nb + 1))]
+        j = rng.randrange(nb)
+        sl = [j, j] + [rng.randrange(nb) for _ in range(rng.randint(0, nb - 1))]
+        rng.shuffle(sl)
+        return sl
     if kind == "out_of_range":
         return sorted(rng.sample(range(nb), rng.randint(0, nb - 1)) + [nb + rng.randint(0, 2)])
+    if kind == "negative":
+        return [-1 - rng.randrange(2)] + sorted(rng.sample(range(nb), rng.randint(0, nb - 1)))
     return []
 
 
-def rand_arg(rng, nb, energies):
-    r = rng.random()
+FILE_KINDS = ("subset", "permuted", "identity", "duplicates", "out_of_range", "empty")
+# the argument flavours of the recorded container calls (cycled through, so that every class occurs for every seed); the first
+# group leads to the class of the same name by construction on a container with an .eig, without a wannierised checkpoint
+FLAVOURS = ("subset", "permuted", "identity", "duplicates", "out_of_range", "negative", "empty_list", "mask_partial", "mask_all",
+            "window_one_edge", "window_tie", "again_refused", "none", "range",
+            "mask_none", "mask_wrong_length", "window", "window", "window_inf", "window_and_range", "no_eig", "wannierised")
+
+
+def rand_arg(rng, nb, energies, flavour):
+    """-> the argument, or None when the flavour cannot be made on these energies"""
     a = dict(kind="none", list=[], mask=[], lo=INF_LO, hi=INF_HI, bs=NO_IDX, be=NO_IDX)
-    if r < 0.4:
+    if flavour in ("again_refused", "no_eig", "wannierised"):
+        flavour = rng.choice(["subset", "window_one_edge", "none", "mask_all"])
+    if flavour in ("subset", "permuted", "identity", "duplicates", "out_of_range", "negative", "empty_list"):
         a["kind"] = "list"
-        a["list"] = rand_sel(rng, nb) if rng.random() > 0.1 else [-1 - rng.randrange(2)] + rand_sel(rng, nb, ("subset",))
-    elif r < 0.6:
+        a["list"] = rand_sel(rng, nb, flavour)
+        return a
+    if flavour.startswith("mask"):
         a["kind"] = "mask"
-        n = nb if rng.random() > 0.1 else nb + rng.choice([-1, 1])
-        q = rng.random()
-        a["mask"] = [True] * max(n, 0) if q < 0.2 else [False] * max(n, 0) if q < 0.25 else [rng.random() < 0.6 for _ in range(max(n, 0))]
-    elif r < 0.93:
-        a["kind"] = "window"
-        vals = sorted({v for e in energies.values() for v in e}) if energies else [0]
-        mids = [vals[0] - 8] + [(vals[j] + vals[j + 1]) // 2 for j in range(len(vals) - 1) if vals[j + 1] - vals[j] >= 2] + [vals[-1] + 8]
-        mids = [m for m in mids if m not in vals] or [vals[0] - 8, vals[-1] + 8]
-        edges = mids if rng.random() > 0.15 else vals              # an edge on an energy: EdgeTie
-        lo, hi = sorted([rng.choice(edges), rng.choice(edges)])
-        q = rng.random()
-        if q < 0.2:
-            lo = INF_LO
-        elif q < 0.4:
-            hi = INF_HI
-        elif q < 0.45:
-            lo, hi = INF_LO, INF_HI
-        a["lo"], a["hi"] = lo, hi
-        if rng.random() < 0.3:
-            a["bs"] = rng.randint(0, nb)
-        if rng.random() < 0.3:
-            a["be"] = rng.randint(0, nb)
+        if flavour == "mask_all":
+            a["mask"] = [True] * nb
+        elif flavour == "mask_none":
+            a["mask"] = [False] * nb
+        elif flavour == "mask_wrong_length":
+            a["mask"] = [rng.random() < 0.6 for _ in range(nb + rng.choice([-1, 1]))]
+        else:
+            while True:
+                a["mask"] = [rng.random() < 0.6 for _ in range(nb)]
+                if any(a["mask"]) and not all(a["mask"]):
+                    break
+        return a
+    if flavour == "none":
+        return a
+    a["kind"] = "window"
+    if flavour == "range":
+        a["bs"], a["be"] = sorted(rng.sample(range(nb + 1), 2))
+        if (a["bs"], a["be"]) == (0, nb):
+            a["bs"] = 1
+        return a
+    if flavour == "window_inf":
+        return a
+    vals = sorted({v for e in energies.values() for v in e}) if energies else [0]
+    mids = [vals[0] - 8] + [(vals[j] + vals[j + 1]) // 2 for j in range(len(vals) - 1) if vals[j + 1] - vals[j] >= 2] + [vals[-1] + 8]
+    mids = [m for m in mids if m not in vals] or [vals[0] - 8, vals[-1] + 8]
+    if flavour == "window_one_edge":
+        # the lowest energy below the edge, the highest band entirely above it: some bands stay, not all
+        if not energies:
+            return None
+        gmin = vals[0]
+        top = min(max(e) for e in energies.values())
+        cand = [m for m in mids if gmin < m < top and all(max(e) > m for e in energies.values()) and
+                all(all(not (e[b] > m) for e in energies.values()) or True for b in range(nb))]
+        cand = [m for m in cand if any(all(e[b] > m for e in energies.values()) for b in range(nb))]
+        if not cand:
+            return None
+        a["hi"] = rng.choice(cand)
+        return a
+    if flavour == "window_tie":
+        lo = rng.choice(vals)
+        his = [m for m in mids if m > lo]
+        a["lo"], a["hi"] = lo, (rng.choice(his) if his and rng.random() < 0.7 else INF_HI)
+        return a
+    lo, hi = sorted([rng.choice(mids), rng.choice(mids)])
+    q = rng.random()
+    if q < 0.2:
+        lo = INF_LO
+    elif q < 0.4:
+        hi = INF_HI
+    a["lo"], a["hi"] = lo, hi
+    if flavour == "window_and_range":
+        a["bs"], a["be"] = sorted(rng.sample(range(nb + 1), 2))
     return a
 
 
-def rand_container(rng, wd):
-    nk, nb = rng.randint(1, 3), rng.randint(1, 5)
+def rand_container(rng, need_eig=None, wannierised=False, plain=False):
+    """plain: at least two bands and, if there is a checkpoint, one without a gauge"""
+    nk, nb = rng.randint(1, 3), rng.randint(2 if plain else 1, 5)
     nw, nnb = rng.randint(1, nb), 2
     ks = list(range(nk)) if nk == 1 or rng.random() > 0.2 else sorted(rng.sample(range(nk), nk - 1))
     en = rand_energies(rng, nk, nb)
     keys = [k for k, p in (("chk", 0.6), ("eig", 0.92), ("amn", 0.7), ("mmn", 0.5), ("spn", 0.3), ("uhu", 0.12), ("siu", 0.2), ("bkvec", 0.3))
             if rng.random() < p]
-    if not [k for k in keys if k in W.BAND_CARRYING]:
+    if need_eig is True and "eig" not in keys:
         keys.append("eig")
-    wann = rng.random() < 0.12
-    objs = {k: rand_obj(rng, k, nk, nb, nw, nnb, ks, wannierised=wann, energies=en) for k in keys}
+    if need_eig is False:
+        keys = [k for k in keys if k != "eig"]
+    if wannierised and "chk" not in keys:
+        keys.append("chk")
+    if not [k for k in keys if k in W.BAND_CARRYING]:
+        keys.append("amn" if need_eig is False else "eig")
+    objs = {k: rand_obj(rng, k, nk, nb, nw, nnb, ks, wannierised=wannierised, energies=en) for k in keys}
     return objs, dict(nk=nk, nb=nb, nw=nw, nnb=nnb, ks=ks, energies=en)
 
 
